@@ -136,6 +136,25 @@ func RedactMongoLog(jsonStr string) (*orderedmap.OrderedMap[string, any], error)
 }
 
 func redactNamespace(cmd *orderedmap.OrderedMap[string, any]) {
+	redactNamespaceFields(cmd)
+	// explain carries the explained operation, bulkWrite lists its namespaces in nsInfo
+	if explained, ok := cmd.Get("explain"); ok {
+		if inner, ok := explained.(*orderedmap.OrderedMap[string, any]); ok {
+			redactNamespaceFields(inner)
+		}
+	}
+	if nsInfo, ok := cmd.Get("nsInfo"); ok {
+		if nsInfoArr, ok := nsInfo.([]any); ok {
+			for _, info := range nsInfoArr {
+				if infoMap, ok := info.(*orderedmap.OrderedMap[string, any]); ok {
+					redactNamespaceFields(infoMap)
+				}
+			}
+		}
+	}
+}
+
+func redactNamespaceFields(cmd *orderedmap.OrderedMap[string, any]) {
 	searchedFields := []string{"ns", "aggregate", "insert", "find", "update", "collection", "delete", "$db", "count", "findAndModify", "findOneAndDelete", "replace", "findOneAndReplace", "findOneAndUpdate", "getIndexes", "countDocuments", "distinct", "mapReduce", "findandmodify"}
 	for _, field := range searchedFields {
 		if value, ok := cmd.Get(field); ok {
@@ -147,7 +166,32 @@ func redactNamespace(cmd *orderedmap.OrderedMap[string, any]) {
 	}
 }
 
+// redactCommand redacts a command document: the operation it describes, the operation wrapped by
+// explain, and the operations listed by bulkWrite.
 func redactCommand(cmd *orderedmap.OrderedMap[string, any], shouldEagerRedact bool) {
+	if cmd == nil {
+		return
+	}
+	redactOperation(cmd, shouldEagerRedact)
+	if explained, ok := cmd.Get("explain"); ok {
+		if inner, ok := explained.(*orderedmap.OrderedMap[string, any]); ok {
+			redactOperation(inner, shouldEagerRedact)
+		}
+	}
+	if _, isBulkWrite := cmd.Get("bulkWrite"); isBulkWrite {
+		if ops, ok := cmd.Get("ops"); ok {
+			if opsArr, ok := ops.([]any); ok {
+				for _, op := range opsArr {
+					if opMap, ok := op.(*orderedmap.OrderedMap[string, any]); ok {
+						redactOperation(opMap, shouldEagerRedact)
+					}
+				}
+			}
+		}
+	}
+}
+
+func redactOperation(cmd *orderedmap.OrderedMap[string, any], shouldEagerRedact bool) {
 	if cmd == nil {
 		return
 	}
@@ -200,6 +244,22 @@ func redactCommand(cmd *orderedmap.OrderedMap[string, any], shouldEagerRedact bo
 		} else if updateArr, ok := update.([]any); ok {
 			// update with an aggregation pipeline
 			cmd.Set("u", redactArrayValues(updateArr, shouldEagerRedact, false, false, []string{}))
+		}
+	}
+	if update, ok := cmd.Get("updateMods"); ok {
+		// the update specification of a bulkWrite operation
+		if updateMap, ok := update.(*orderedmap.OrderedMap[string, any]); ok {
+			cmd.Set("updateMods", redactQueryValues(updateMap, shouldEagerRedact, false, nil, []string{}))
+		} else if updateArr, ok := update.([]any); ok {
+			cmd.Set("updateMods", redactArrayValues(updateArr, shouldEagerRedact, false, false, []string{}))
+		}
+	}
+	if _, isInsert := cmd.Get("insert"); isInsert {
+		if doc, ok := cmd.Get("document"); ok {
+			// the inserted document of a bulkWrite operation
+			if docMap, ok := doc.(*orderedmap.OrderedMap[string, any]); ok {
+				cmd.Set("document", redactQueryValues(docMap, shouldEagerRedact, false, nil, []string{}))
+			}
 		}
 	}
 	if _, isInsert := cmd.Get("insert"); isInsert {
